@@ -234,15 +234,13 @@ trailing ones); otherwise two hex digits (either case) make a byte; a lone last 
 other character is an error. -/
 def hexBytes : List Char → Option (List UInt8)
   | [] => some []
-  | c :: cs =>
-    if c = ':' then hexBytes cs
+  | [c] => if c = ':' then some [] else none
+  | c :: d :: rest =>
+    if c = ':' then hexBytes (d :: rest)
     else
-      match cs with
-      | [] => none
-      | d :: rest =>
-        match hexVal c, hexVal d, hexBytes rest with
-        | some h, some l, some bs => some (UInt8.ofNat (h * 16 + l) :: bs)
-        | _, _, _ => none
+      match hexVal c, hexVal d, hexBytes rest with
+      | some h, some l, some bs => some (UInt8.ofNat (h * 16 + l) :: bs)
+      | _, _, _ => none
 
 /-- `X509V3_EXT_nconf` on a `DER:` value: (critical flag, extension content bytes).  `none` for a
 value that is not of the `DER:` kind (`ASN1:` and named-extension syntaxes are not modelled) or
